@@ -11,6 +11,22 @@ def _indirect_calls(f, text):
     return [c for c in f.walk() if c.k == "CallExpr" and not c.callee and X.show(c.children[0]) == text]
 
 
+def dispatch_points(P, f, text="global_config.dispatcher"):
+    """Where f dispatches an event: its own indirect calls through the dispatcher, or its calls to a static helper that has no
+    other caller and contains exactly one such call.  Returns [(node in f, dispatcher call, helper or None)]."""
+    out = [(c, c, None) for c in _indirect_calls(f, text)]
+    for c in f.calls():
+        g = P.fn_opt(c.callee) if c.callee else None
+        if g is None or not g.static or g.name == f.name:
+            continue
+        if any(k.fn.name != f.name for k in P.callers(g.name)):
+            continue
+        inner = _indirect_calls(g, text)
+        if len(inner) == 1:
+            out.append((c, inner[0], g))
+    return out
+
+
 # --------------------------------------------------------------------------------------------------------------
 # C01.1 / C05.6  rollback pipeline
 # --------------------------------------------------------------------------------------------------------------
@@ -63,14 +79,21 @@ def check_pipeline(ck, P, rid):
                 ck.violated(rid, "stage-outside:%s@%s" % (name, c.fn.name), c.where, "%s is called outside do_rollback" % name, cfg)
     # silent_execution's own contract: nothing to do when start >= target; re-executes processed entries in [start, target)
     se = P.fn("silent_execution")
-    d = _indirect_calls(se, DISPATCH)
+    dp = dispatch_points(P, se, DISPATCH)
+    d = [x[1] for x in dp]
     if len(d) != 1:
         ck.violated(rid, "coast-forward:dispatch", se.where, "silent_execution must re-dispatch each processed entry once per iteration (found %d dispatcher calls)" % len(d), cfg)
     else:
         args = [X.show(x) for x in X.callee_args(d[0])]
         want_fields = ["dest", "dest_t", "m_type", "pl", "pl_size"]
         got = [x.split("->")[-1] for x in args[:5]]
-        if got == want_fields and len({x.split("->")[0] for x in args[:5]}) == 1:
+        via_ok = True
+        if dp[0][2] is not None:
+            # through a helper: the message the helper dispatches is its parameter, bound at the call to the entry loaded in the loop
+            hp = [p["name"] for p in dp[0][2].params]
+            base = {x.split("->")[0] for x in args[:5]}
+            via_ok = len(base) == 1 and next(iter(base)) in hp
+        if got == want_fields and len({x.split("->")[0] for x in args[:5]}) == 1 and via_ok:
             ck.holds(rid, "coast-forward:dispatch", d[0].where, "re-dispatches (%s) of the history entry" % ", ".join(got), cfg)
         else:
             ck.violated(rid, "coast-forward:dispatch", d[0].where, "the re-executed event is not the history entry's own (dest, dest_t, m_type, pl, pl_size): %s" % args[:5], cfg)
@@ -191,7 +214,7 @@ def check_silent(ck, P, rid):
     sets = [x for x in se.walk() if x.k == "BinaryOperator" and x.op == "=" and X.show(x.children[0]) == "silent_processing"]
     on = [x for x in sets if X.const_int(x.children[1]) == 1]
     off = [x for x in sets if X.const_int(x.children[1]) == 0]
-    d = _indirect_calls(se, DISPATCH)
+    d = [x[0] for x in dispatch_points(P, se, DISPATCH)]
     inst = "set-reset@silent_execution"
     if not d:
         ck.inconclusive(rid, inst, se.where, "no dispatcher call", cfg)
@@ -410,7 +433,10 @@ def check_account(ck, P, rid, rid_arena):
 
     # rs_free: -= the size buddy_free reports
     f, st = stores("rs_free")
-    if len(st) == 1 and st[0].op == "-=" and X.strip(st[0].children[1]).k == "CallExpr" and X.strip(st[0].children[1]).callee == "buddy_free":
+    def _is_buddy_free(n):
+        n = Q.resolve_local(f, n) if X.strip(n).k == "DeclRefExpr" else X.strip(n)
+        return n is not None and n.k == "CallExpr" and n.callee == "buddy_free"
+    if len(st) == 1 and st[0].op == "-=" and _is_buddy_free(st[0].children[1]):
         ck.holds(rid, "account:free", st[0].where, "-= buddy_free(...): the size of the released block", cfg)
     else:
         ck.violated(rid, "account:free", f.where, "rs_free does not give the released block's size back to the account", cfg)
@@ -657,6 +683,15 @@ def check_arena_order(ck, P, rid):
 # ---------------------------------------------------------------------------------------------------------------
 # index ranges of the two rollback loops, evaluated by the finite-domain interpreter over indices and tag bits only
 
+def _unknown_helpers(P, f, known):
+    """Functions of the runtime that f calls and that the index-only evaluation treats as opaque (other than the known ones)."""
+    out = set()
+    for c in f.calls():
+        if c.callee and c.callee not in known and P.fn_opt(c.callee) is not None and not c.callee.startswith("__builtin"):
+            out.add(c.callee)
+    return out
+
+
 def check_rollback_ranges(ck, P, rid):
     """send_anti_messages undoes exactly the entries [past_i, count) and leaves count == past_i; silent_execution re-dispatches
     exactly the untagged entries of [last_i, past_i) and nothing when last_i >= past_i.  Evaluated for all 0 <= start <= end <= 4
@@ -690,8 +725,11 @@ def check_rollback_ranges(ck, P, rid):
                         bad = (s, c, undone, left)
             if unknown:
                 break
+        helpers = _unknown_helpers(P, f, {"stats_take", "msg_queue_insert", "mpi_remote_anti_msg_send", "msg_allocator_free_at_gvt", "msg_allocator_free"})
         if unknown:
             ck.inconclusive(rid, inst, f.where, "the undo loop could not be evaluated for past_i = %d, count = %d" % unknown, cfg)
+        elif bad and helpers:
+            ck.inconclusive(rid, inst, f.where, "the undo loop works through %s, which this evaluation does not enter" % sorted(helpers), cfg)
         elif bad:
             ck.violated(rid, inst, f.where, "with past_i = %d and %d history entries, %d entr%s undone and the history is cut to %s (must be %d and %d): an event beyond the rollback point "
                         "stays processed (its messages are never cancelled) or one before it is undone" % (bad[0], bad[1], bad[2], "y is" if bad[2] == 1 else "ies are", bad[3], bad[1] - bad[0], bad[0]), cfg)
@@ -730,8 +768,11 @@ def check_rollback_ranges(ck, P, rid):
                 break
         if unknown:
             break
+    helpers = _unknown_helpers(P, g, {"stats_take", "timer_hr_new", "timer_hr_value"})
     if unknown:
         ck.inconclusive(rid, inst, g.where, "the coast-forward loop could not be evaluated for last_i = %d, past_i = %d" % unknown, cfg)
+    elif bad and helpers:
+        ck.inconclusive(rid, inst, g.where, "the coast-forward loop works through %s, which this evaluation does not enter" % sorted(helpers), cfg)
     elif bad:
         ck.violated(rid, inst, g.where, "restored position %d, rollback point %d%s: %d event(s) are re-executed silently instead of %d — the state after the rollback is not the state before "
                     "the first undone event" % (bad[0], bad[1], "" if bad[2] is None else " (entry %d is a sent-message marker)" % bad[2], bad[3], bad[4]), cfg)
